@@ -25,6 +25,10 @@ type nv struct {
 func strOf(n int) string { return strings.Repeat("abcdefghijklmnopqrstuvwxyz0123456789", n/36+1)[:n] }
 
 // scalarDomain: boundary values of one kind, simplest first. index 0 is always the zero value.
+// BigLists adds lists of 4097 (thorough: 2049, 8193, 65537) scalar elements to the value domains. Off by default: only the
+// marshal / unmarshal checks of the generated code (C04-C07, C10) ask for them.
+var BigLists bool
+
 func scalarDomain(fd protoreflect.FieldDescriptor, thorough bool) []nv {
 	out := scalarDomain0(fd, thorough)
 	if fd.HasDefault() && !fd.IsList() { // proto2 [default = x]: the field explicitly SET to its default value
@@ -255,6 +259,52 @@ func fieldSetters(fd protoreflect.FieldDescriptor, depth int, thorough bool) []s
 		lens := []int{15, 16, 17, 31, 32, 33, 127, 128}
 		if thorough {
 			lens = append(lens, 129, 2048)
+		}
+		if fd.Message() == nil && BigLists {
+			// beyond every small chunk size a generator might introduce (scratch arrays, batching): 2^12 + 1 elements
+			lens = append(lens, 4097)
+			if thorough {
+				lens = append(lens, 2049, 8193, 65537)
+			}
+		}
+		// packed payloads of exactly 127 / 128 (thorough: 16383 / 16384) BYTES made of the widest encoding of the kind plus
+		// one-byte fillers: the length prefix grows by one byte at these payload sizes whatever the element count is
+		// (13 ten-byte negatives are already 130 bytes)
+		if fd.IsPacked() {
+			size := func(x nv) int {
+				probe := dynamicpb.NewMessage(fd.ContainingMessage())
+				probe.Mutable(fd).List().Append(cloneValue(fd, x.v))
+				b, err := proto.MarshalOptions{AllowPartial: true}.Marshal(probe)
+				if err != nil {
+					return 0
+				}
+				return len(b) - protowire.SizeTag(fd.Number()) - 1
+			}
+			wide, narrow := dom[0], dom[0]
+			for _, x := range dom {
+				if size(x) > size(wide) {
+					wide = x
+				}
+				if size(x) < size(narrow) {
+					narrow = x
+				}
+			}
+			if sw, sn := size(wide), size(narrow); sn == 1 && sw > 1 {
+				targets := []int{127, 128}
+				if thorough {
+					targets = append(targets, 16383, 16384)
+				}
+				for _, T := range targets {
+					var vs []nv
+					for k := 0; k < T/sw; k++ {
+						vs = append(vs, wide)
+					}
+					for k := 0; k < T%sw; k++ {
+						vs = append(vs, narrow)
+					}
+					app(fmt.Sprintf("packed-payload-%d-bytes", T), vs...)
+				}
+			}
 		}
 		for _, n := range lens {
 			vs := make([]nv, n)
